@@ -49,14 +49,14 @@ type FaultRule struct {
 }
 
 type Case struct {
-	Spec   *world.Spec  `json:"spec"`
-	Query  *world.Query `json:"query"`
-	Modes  world.Modes  `json:"modes"`
-	Sched  string       `json:"sched"`
-	Faults []FaultRule  `json:"faults"`
-	Secret string       `json:"secret"`
-	Text   string       `json:"text"`
-	InRerunner bool     `json:"in_rerunner"`
+	Spec       *world.Spec  `json:"spec"`
+	Query      *world.Query `json:"query"`
+	Modes      world.Modes  `json:"modes"`
+	Sched      string       `json:"sched"`
+	Faults     []FaultRule  `json:"faults"`
+	Secret     string       `json:"secret"`
+	Text       string       `json:"text"`
+	InRerunner bool         `json:"in_rerunner"`
 }
 
 type failErr struct {
@@ -548,6 +548,15 @@ func TestReplay(t *testing.T) {
 		if sig, err := checkMutations(mc); err != nil {
 			rec.Violate("TestReplay", mc, sig+": "+err.Error())
 			t.Fatalf("%s: %v", sig, err)
+		}
+		return
+	}
+	var pw struct {
+		Paginated *PgCase `json:"paginated"`
+	}
+	if _, err := ev.LoadReplay(p, &pw); err == nil && pw.Paginated != nil {
+		for i := 0; i < 20; i++ {
+			runPaginated(t, "TestReplay", *pw.Paginated)
 		}
 		return
 	}
